@@ -23,9 +23,13 @@ pub use crate::fx::rates_py::verif_hooks as rates_py;
 /// The Python-facing methods of `PPSplineF64` / `PPSplineDual` / `PPSplineDual2` (`rust/splines/spline_py.rs`).
 pub use crate::splines::spline_py::verif_hooks as spline_py;
 
-/// `index_left` instantiated for `f64` lists.
+/// `index_left` instantiated for `f64` lists: the Python-facing function `index_left_f64` itself.
 pub fn index_left_f64(list: &[f64], value: &f64) -> usize {
-    index_left(list, value, None)
+    crate::curves::interpolation::interpolation_py::index_left_f64(list.to_vec(), *value, None)
+}
+/// The same with the optional `left_count` argument of the Python-facing function.
+pub fn index_left_f64_count(list: &[f64], value: &f64, left_count: Option<usize>) -> usize {
+    crate::curves::interpolation::interpolation_py::index_left_f64(list.to_vec(), *value, left_count)
 }
 
 /// `index_left` instantiated for `i64` lists (the instantiation used by curves).
@@ -69,9 +73,12 @@ impl Tagged {
         obj.to_json().map_err(|e| e.to_string())
     }
 
-    /// The tagged `from_json` entry point (same call as `from_json_py` without the GIL token).
+    /// The tagged `from_json` entry point: the Python-facing function `from_json` itself (a raised exception is `Err`).
     pub fn from_json(json: &str) -> Result<Tagged, String> {
-        match DeserializedObj::from_json(json) {
+        let loaded = pyo3::Python::with_gil(|py| {
+            crate::json::json_py::from_json_py(py, json).map_err(|e| e.to_string())
+        });
+        match loaded {
             Ok(v) => Ok(match v {
                 DeserializedObj::Dual(v) => Tagged::Dual(v),
                 DeserializedObj::Dual2(v) => Tagged::Dual2(v),
